@@ -470,3 +470,21 @@ func SemanticErrorCases() []*SemanticError {
 
 // RuleProgram renders the declaration alone in its object and file.
 func RuleProgram(rs *RuleSpec) *Program { return rs.program() }
+
+// RulePairProgram: the declaration of a as field "val" and the declaration of b as
+// field "other" of the same object; b is explicitly optional unless it is required.
+func RulePairProgram(a, b *RuleSpec) *Program {
+	pa, pb := a.program(), b.program()
+	if len(pa.Files) != 1 || len(pb.Files) != 1 {
+		return nil
+	}
+	holder := pa.Files[0].Decls[0].(*Decl)
+	other := *pb.Files[0].Decls[0].(*Decl).Fields[0]
+	other.Name = "other"
+	other.Rule = b
+	if !b.Required && other.T.K != TArray && other.T.K != TMap {
+		other.Optional, other.UseMark = true, true
+	}
+	holder.Fields = append(holder.Fields, &other)
+	return pa
+}
